@@ -28,8 +28,12 @@ Enabled(s, op) ==
     [] op \in {"peerClose1000", "peerClose1001", "peerClose4000"} -> s.peerClose = 0 /\ ~s.closed
     [] op \in {"read1", "read2", "read9"} -> s.rexp \/ s.eof \/ s.closed \/ DropEmpty(s.inq) # <<>> \/ s.peerClose # 0
     [] op \in {"write0", "write2"} -> s.peerClose = 0
-    [] op \in {"readBlockedDeadline", "readBlockedSetPast"} -> ~s.rexp /\ ~s.eof /\ ~s.closed /\ DropEmpty(s.inq) = <<>> /\ s.peerClose = 0
-    [] op \in {"writeBlockedDeadline", "writeBlockedSetPast"} -> ~s.wexp /\ ~s.closed /\ s.peerClose = 0
+    \* (...Deadline begins by setting a deadline 30 ms ahead, which resets an earlier idle expiry: it is enabled after one too --
+    \*  a deadline later than one that has already expired must be armed like any other)
+    [] op = "readBlockedSetPast" -> ~s.rexp /\ ~s.eof /\ ~s.closed /\ DropEmpty(s.inq) = <<>> /\ s.peerClose = 0
+    [] op = "readBlockedDeadline" -> ~s.eof /\ ~s.closed /\ DropEmpty(s.inq) = <<>> /\ s.peerClose = 0
+    [] op = "writeBlockedSetPast" -> ~s.wexp /\ ~s.closed /\ s.peerClose = 0
+    [] op = "writeBlockedDeadline" -> ~s.closed /\ s.peerClose = 0
     [] OTHER -> TRUE
 (* Step(s, op) = [s |-> next state, obs |-> what the call must report] *)
 Step(s, op) ==
@@ -61,8 +65,8 @@ Step(s, op) ==
     [] op = "wdlPast" -> [s |-> [s EXCEPT !.wexp = TRUE], obs |-> "idle"]
     [] op = "wdlZero" -> [s |-> [s EXCEPT !.wexp = FALSE], obs |-> "set"]
     \* a deadline armed before the call that fires during it, or a deadline in the past set by another goroutine while the call is blocked
-    [] op \in {"readBlockedDeadline", "readBlockedSetPast"} -> [s |-> [s EXCEPT !.closed = TRUE], obs |-> "active"]
-    [] op \in {"writeBlockedDeadline", "writeBlockedSetPast"} -> [s |-> [s EXCEPT !.closed = TRUE], obs |-> "active"]
+    [] op \in {"readBlockedDeadline", "readBlockedSetPast"} -> [s |-> [s EXCEPT !.closed = TRUE, !.rexp = FALSE], obs |-> "active"]
+    [] op \in {"writeBlockedDeadline", "writeBlockedSetPast"} -> [s |-> [s EXCEPT !.closed = TRUE, !.wexp = FALSE], obs |-> "active"]
 
 (* ---- as a state machine (M) ---- *)
 CONSTANT MaxOps
